@@ -431,10 +431,8 @@ func init() {
 		Assumptions: []string{"convergence is detected by equality of the maxIter=100 and maxIter=200 runs", "int8 bound absMax/254 with 1e-5 relative + 1e-6*absMax float tolerance"},
 		Shards: func(tier string) []vShard {
 			var sh []vShard
-			l2 := 3
-			if tier == "thorough" {
-				l2 = 4
-			}
+			l2 := 4
+			_ = tier
 			sh = append(sh, vShard{Name: "kmeans/d1", Run: func(c *vCtx) { vC20KMeans(c, 1, 4, 0, 1) }})
 			parts := 6
 			for p := 0; p < parts; p++ {
